@@ -19,6 +19,7 @@ OUT = os.path.join(VERIF, "out")
 EVID = os.path.join(VERIF, "evidence")
 TLA_CP = "/opt/veriftools/tla/tla2tools.jar:/opt/veriftools/tla/CommunityModules-deps.jar"
 NCPU = os.cpu_count() or 4
+HARNESS_TIMEOUT = 7200   # seconds; a harness that hangs is a broken check (exit 2), never a violation
 
 GOENV = dict(os.environ, GOFLAGS="-mod=mod", GOPROXY="off", GOSUMDB="off", GOTOOLCHAIN="local",
              CGO_ENABLED=os.environ.get("CGO_ENABLED", "1"))
@@ -225,6 +226,9 @@ class Verdict:
 def main_wrapper(fn):
     try:
         rc = fn()
+    except subprocess.TimeoutExpired as t:
+        log("BROKEN-CHECK: timed out: %s" % (t.cmd,))
+        rc = 2
     except Broken as b:
         log("BROKEN-CHECK: " + str(b))
         rc = 2
